@@ -477,7 +477,7 @@ struct athr {
 	char pad[64];
 } __attribute__((aligned(64)));
 static struct athr A[MAX_W];
-static int a_stop, aba_no_gp, aba_malloc, aba_pool;
+static int a_stop, aba_no_gp, aba_malloc, aba_pool, aba_mutex;
 static double aba_prob;
 static uint64_t aba_delays[MAX_W + 1];
 static __thread int a_self = MAX_W;
@@ -507,7 +507,7 @@ static void a_fail(const char *what, const char *fmt, ...)
 	va_end(ap);
 	snprintf(key, sizeof(key), "stack:%s:aba:%s", kind_name[cur_kind], what);
 	vp_violation(key, "ABA run (pool=%d nodes, %s): %s", aba_pool,
-		     aba_no_gp ? "NEGATIVE CONTROL: recycling WITHOUT grace period" : "recycling after synchronize_rcu()", msg);
+		     aba_no_gp ? "NEGATIVE CONTROL: recycling WITHOUT grace period" : (aba_mutex ? "pop-mutex scheme, immediate reuse" : "recycling after synchronize_rcu()"), msg);
 }
 
 static int a_take(struct athr *t, struct snode *n, const char *how)
@@ -527,7 +527,10 @@ static void a_recycle(struct athr *t, struct snode **v, int cnt)
 {
 	uint64_t tc, tr;
 
-	if (!aba_no_gp) {
+	/* mutex sub-run: pop / pop_all are serialised by the stack's pop mutex (internal: cds_lfs_pop_blocking /
+	 * cds_lfs_pop_all_blocking, or explicit: cds_lfs_pop_lock around __cds_lfs_pop / __cds_lfs_pop_all), so a
+	 * node may be pushed again at once - the tightest ABA schedule.  The RCU scheme needs a grace period. */
+	if (!aba_no_gp && !aba_mutex) {
 		synchronize_rcu();
 		t->syncs++;
 	}
@@ -566,9 +569,9 @@ static void *a_worker(void *arg)
 
 		VP_STORE(vt->progress, vt->progress + 1);
 		vp_rcu_qs();
-		if (cur_kind == K_LFS && vp_rand_n(&t->rng, 256) == 0) {
+		if (cur_kind == K_LFS && vp_rand_n(&t->rng, aba_mutex ? 24 : 256) == 0) {
 			unsigned wb = 0;
-			void *head = stack_pop_all(0, (int) vp_rand_n(&t->rng, 2), &tc, &tr);
+			void *head = stack_pop_all(aba_mutex ? (int) vp_rand_n(&t->rng, 2) : 0, (int) vp_rand_n(&t->rng, 2), &tc, &tr);
 			int cnt = chain_iter(head, (int) vp_rand_n(&t->rng, 2), chain, aba_pool + 1, &wb), ok = 0;
 			if (cnt < 0) {
 				a_fail("popall-chain-does-not-end", "thread %d: pop_all chain longer than the pool", t->idx);
@@ -582,7 +585,7 @@ static void *a_worker(void *arg)
 			a_recycle(t, chain, ok);
 			continue;
 		}
-		struct snode *n = stack_pop(PV_BLOCKING, 0, &st, &tc, &tr);
+		struct snode *n = stack_pop(PV_BLOCKING, aba_mutex ? (int) vp_rand_n(&t->rng, 2) : 0, &st, &tc, &tr);
 		if (!n) {
 			t->pop_null++;
 			continue;
@@ -679,7 +682,16 @@ static int run_aba(void)
 		if (!(kinds_mask & (1u << k)) || vp_nviolations())
 			continue;
 		VP_STORE(cur_kind, k);
-		aba_one_kind(opt_seconds / nk);
+		aba_one_kind(opt_seconds / (nk + 1));
+	}
+	if ((kinds_mask & (1u << K_LFS)) && !aba_no_gp && !vp_nviolations()) {
+		/* lfstack under its pop-mutex scheme, immediate reuse */
+		cur_scheme = S_MUTEX;
+		aba_mutex = 1;
+		VP_STORE(cur_kind, K_LFS);
+		aba_one_kind(opt_seconds / (nk + 1));
+		aba_mutex = 0;
+		cur_scheme = S_RCU;
 	}
 	rcu_unregister_thread();
 	for (int i = 0; i < nthreads; i++) {
